@@ -61,7 +61,8 @@ theorem putC_ok (b s : Buf) (h : s.length + 1 ≤ b.length) :
     putC b s = .ok (s ++ NUL :: b.drop (s.length + 1)) := by
   unfold putC
   rw [memcpy_ok b 0 (s ++ [NUL]) 0 (s.length + 1) (by omega) (by simp)]
-  simp
+  have : List.take (s.length + 1) (s ++ [NUL]) = s ++ [NUL] := List.take_of_length_le (by simp)
+  simp [this]
 
 theorem no_nul_rtrim {t : Buf} (h0 : ∀ c ∈ t, c ≠ NUL) : ∀ c ∈ rtrim t, c ≠ NUL :=
   fun c hc => h0 c (mem_rtrim hc)
@@ -180,7 +181,8 @@ theorem flow_char_scalar_result (t : Buf) (c : Nat) (h : 0 < t.length) :
 
 /-- the `std::string` data()/size() copy-back for a text shorter than 2^31 -/
 theorem strCopy_std (t s : Buf) (h32 : s.length < 2147483648) :
-    strCopy t t.length (some (s ++ [NUL])) (narrow32 s.length) = .ok (fassign t.length s) := by
+    strCopyStd t t.length s = .ok (fassign t.length s) := by
+  unfold strCopyStd
   rw [narrow32_of_lt _ h32]
   have := strCopy_counted t [] (s ++ [NUL]) s.length (by simp)
   simpa using this
@@ -243,13 +245,14 @@ theorem flow_string_out_narrowing_oob (t s : Buf) (h0 : ∀ c ∈ s, c ≠ NUL) 
     flow Gen.c_string_ref_out_buf false false t (.strOut s) = .oob := by
   have hneg : narrow32 s.length < 0 := by rw [hlen, narrow32_two31]; decide
   have hsl := strlen_app s [] h0
-  have hcp : strCopy t t.length (some (s ++ [NUL])) (narrow32 s.length) = .oob := by
+  have hcp : strCopyStd t t.length s = .oob := by
     have h2 : (narrow32 s.length < (t.length : Int)) := by omega
-    simp [strCopy, hneg, hsl, strCopyTail, h2]
+    simp [strCopyStd, strCopy, hneg, hsl, strCopyTail, h2]
   simp [Gen.c_string_ref_out_buf, flow, flowArr, init, run, step, exec, call, finish, active, natLen, needCvar, hcp]
 
-example : ∃ s : Buf, (∀ c ∈ s, c ≠ NUL) ∧ s.length = 2147483648 :=
-  ⟨List.replicate 2147483648 97, by intro c hc; rw [(List.mem_replicate.mp hc).2]; decide, by simp⟩
+/-- texts of every length without NUL exist (in particular of length 2^31) -/
+example (n : Nat) : ∃ s : Buf, (∀ c ∈ s, c ≠ NUL) ∧ s.length = n :=
+  ⟨List.replicate n 97, by intro c hc; rw [(List.mem_replicate.mp hc).2]; decide, by simp⟩
 
 /-! ## allocatable results -/
 
@@ -319,5 +322,36 @@ theorem flow_char_pp_in (slices : List Buf) (len : Nat) (h : ∀ s ∈ slices, s
     intro s hs
     exact (in_cstr_no_nul s [] (h0 s hs)).1
   simp [Gen.c_char_pp_in_buf, flowArr, init, run, step, exec, call, finish, active, natLen, ha, hfree, hcs]
+
+/-- `std::vector<std::string>` intent(in): the vector holds `rtrim` of every array element -/
+theorem flow_vector_in (slices : List Buf) (len : Nat) (h : ∀ s ∈ slices, s.length = len) :
+    flowArr Gen.c_vector_in_buf_string false false slices.flatten slices.length len .vecIn
+      = .ok ⟨none, some (slices.map rtrim), slices.flatten, 0, false⟩ := by
+  have hv := vecStringIn_spec slices len [] h
+  simp only [List.append_nil] at hv
+  simp [Gen.c_vector_in_buf_string, flowArr, init, run, step, exec, call, finish, active, natLen, hv]
+
+/-- intent(out): the first `min(size, v.size())` elements are the returned texts truncated or
+    blank-padded to `len`, the others are not touched -/
+theorem flow_vector_out (slices : List Buf) (len : Nat) (vs : List (List Nat))
+    (h : ∀ s ∈ slices, s.length = len) (h32 : ∀ v ∈ vs, v.length < 2147483648) :
+    flowArr Gen.c_vector_out_buf_string false false slices.flatten slices.length len (.vecOut vs)
+      = .ok ⟨none, none, (mergeOut len slices vs).flatten, 0, false⟩ := by
+  have hv := vecStringOut_spec slices len [] vs h h32
+  simp only [List.append_nil] at hv
+  simp [Gen.c_vector_out_buf_string, flowArr, init, run, step, exec, call, finish, active, natLen, hv]
+
+/-- intent(inout): both -/
+theorem flow_vector_inout (slices : List Buf) (len : Nat) (vs : List (List Nat))
+    (h : ∀ s ∈ slices, s.length = len) (h32 : ∀ v ∈ vs, v.length < 2147483648) :
+    flowArr Gen.c_vector_inout_buf_string false false slices.flatten slices.length len (.vecInout vs)
+      = .ok ⟨none, some (slices.map rtrim), (mergeOut len slices vs).flatten, 0, false⟩ := by
+  have hi := vecStringIn_spec slices len [] h
+  have hv := vecStringOut_spec slices len [] vs h h32
+  simp only [List.append_nil] at hi hv
+  simp [Gen.c_vector_inout_buf_string, flowArr, init, run, step, exec, call, finish, active, natLen, hi, hv]
+
+example : flowArr Gen.c_vector_inout_buf_string false false [97, 32, 32, 32] 2 2 (.vecInout [[], [97, 97, 97]])
+    = .ok ⟨none, some [[97], []], [32, 32, 97, 97], 0, false⟩ := by decide
 
 end Shroud.StrStmts
